@@ -492,6 +492,10 @@ mod responder;
 mod state;
 mod teardown;
 
+#[cfg(unimock_verif)]
+#[doc(hidden)]
+pub mod verif;
+
 use core::any::Any;
 use core::any::TypeId;
 use core::fmt::Debug;
